@@ -231,14 +231,24 @@ class Executor:
             if not (self.theory and self.theory.accept_varargs(self)):
                 raise OutOfSubset('varargs/kwargs', self.fn)
         pmap = dict(self.c.params)
-        for n in names:
-            if n not in pmap:
+        cnames = [pn for pn, _ in self.c.params]
+        # parameters are matched by POSITION (a renamed parameter keeps its contract); the contract's names denote entry values
+        self.entry_params = {}
+        if len(names) + (1 if args.vararg else 0) != len(cnames) and not all(n in pmap for n in names):
+            raise OutOfSubset('the contract of %s has %d parameters, the function %d' % (self.qualname, len(cnames), len(names)))
+        for i, n in enumerate(names):
+            cn = n if n in pmap else (cnames[i] if i < len(cnames) and cnames[i] not in names else None)
+            if cn is None:
                 raise OutOfSubset('no sort for parameter %s in the contract of %s' % (n, self.qualname))
-            st.env[n] = self.mk_param(st, n, pmap[n])
+            st.env[n] = self.mk_param(st, n, pmap[cn])
+            self.entry_params[cn] = st.env[n]
+            self.entry_params[n] = st.env[n]
         if args.vararg:
             n = args.vararg.arg
-            st.env[n] = self.mk_param(st, n, pmap[n])
-        self.entry_params = {n: v for n, v in st.env.items()}
+            cn = n if n in pmap else cnames[-1]
+            st.env[n] = self.mk_param(st, n, pmap[cn])
+            self.entry_params[cn] = st.env[n]
+            self.entry_params[n] = st.env[n]
         for r in self.c.requires:
             st.assume(self.fmt(r, st))
         if self.theory:
@@ -730,6 +740,22 @@ class Executor:
             return self.for_range(s, st, k)
         if self.theory and self.theory.for_enumerate(self, s, st, k):
             return
+        if isinstance(it, ast.Call) and isinstance(it.func, ast.Name) and it.func.id == 'enumerate' and len(it.args) == 1 \
+                and not it.keywords and isinstance(it.args[0], (ast.Name, ast.Attribute)) and isinstance(s.target, ast.Tuple) \
+                and len(s.target.elts) == 2 and all(isinstance(t, ast.Name) for t in s.target.elts):
+            # for i, x in enumerate(xs)  ==  for i in range(len(xs)): x = xs[i]   (xs a name / attribute: no effect in evaluating it;
+            # the loop keeps its ordinal, so the invariants of the index form apply)
+            i_, x_ = s.target.elts
+            s2 = ast.For(target=ast.Name(id=i_.id, ctx=ast.Store()),
+                         iter=ast.Call(func=ast.Name(id='range', ctx=ast.Load()),
+                                       args=[ast.Call(func=ast.Name(id='len', ctx=ast.Load()), args=[it.args[0]], keywords=[])], keywords=[]),
+                         body=[ast.Assign(targets=[ast.Name(id=x_.id, ctx=ast.Store())],
+                                          value=ast.Subscript(value=it.args[0], slice=ast.Name(id=i_.id, ctx=ast.Load()), ctx=ast.Load()),
+                                          lineno=s.lineno)] + s.body, orelse=[])
+            ast.copy_location(s2, s)
+            ast.fix_missing_locations(s2)
+            self.loop_ord[id(s2)] = self.loop_ord[id(s)]
+            return self.for_range(s2, st, k)
         for st2, v in self.eval(it, st):
             if isinstance(v, Exc):
                 k.exc(st2, v)
